@@ -82,6 +82,15 @@ def make_classes():
         def forward(self):
             return self.version
 
+        # user models may define value equality (two critics with the same configuration compare
+        # equal and hash alike): the framework must keep telling them apart by name / identity
+        def __eq__(self, other) -> bool:
+            return isinstance(other, VModel) and (self.has_inference_model, self.inference_thread_only) == \
+                (other.has_inference_model, other.inference_thread_only)
+
+        def __hash__(self) -> int:
+            return hash((self.has_inference_model, self.inference_thread_only))
+
         def sync_impl(self, inference_model) -> None:
             self.rec.ev("sync", self.name, inference_model)
             inference_model.version = self.version
